@@ -170,12 +170,15 @@ func init() {
 					}
 					digits := c.Bits
 					evil := func(_ *big.Int, inputs []*big.Int, results []*big.Int) error {
-						for i := range results {
-							if i < len(digits) {
-								results[i].SetInt64(int64(digits[i]))
-							} else {
-								results[i].SetInt64(0)
+						// lie only on the n-digit decomposition under test; any other decomposition is answered honestly
+						if len(results) != len(digits) {
+							for i := range results {
+								results[i].SetUint64(uint64(inputs[0].Bit(i)))
 							}
+							return nil
+						}
+						for i := range results {
+							results[i].SetInt64(int64(digits[i]))
 						}
 						return nil
 					}
